@@ -213,7 +213,7 @@ func (s *nullStore) IndexFiles(_ context.Context, v []claircore.File, _ *clairco
 
 // buildLayerScanner constructs the real indexer.LayerScanner over the same
 // ecosystems and configuration.
-func buildLayerScanner(ctx context.Context, dir string, store indexer.Store) (*indexer.LayerScanner, error) {
+func buildLayerScanner(ctx context.Context, dir string, store indexer.Store, concurrent int) (*indexer.LayerScanner, error) {
 	opts := &indexer.Options{
 		Client:     &http.Client{Transport: offlineTransport{}},
 		Store:      store,
@@ -236,7 +236,7 @@ func buildLayerScanner(ctx context.Context, dir string, store indexer.Store) (*i
 			opts.ScannerConfig.Dist[name] = f
 		}
 	}
-	return indexer.NewLayerScanner(ctx, 64, opts)
+	return indexer.NewLayerScanner(ctx, concurrent, opts)
 }
 
 // buildScanners constructs what libindex.New builds by default (the nine
@@ -437,6 +437,10 @@ type workerState struct {
 	out      *bufio.Writer
 	scanners []indexer.VersionedScanner
 	real     *indexer.LayerScanner
+	// realDefault is the LayerScanner built with concurrency 0 ("pick a
+	// default"), as libindex builds it when the option is not set.
+	realDefault *indexer.LayerScanner
+	realCalls   int
 	store    *nullStore
 	// seq is what the sequential run of the current layer answered, by scanner.
 	seq map[int]string
@@ -454,6 +458,20 @@ func (w *workerState) send(typ byte, s string) {
 // layer runs Layer.Init and the listed scanners on one blob. With report unset
 // (the warm-up) nothing is sent.
 func (w *workerState) layer(blob []byte, idx []int, report bool) {
+	// The Layer lives in the frame of layerCalls: once that has returned,
+	// nothing refers to it and its finalizers (if any were left) can run.
+	w.layerCalls(blob, idx, report)
+	// What the calls left to the garbage collector is finalized now, while the
+	// parent still charges a death of the worker to this layer (a finalizer
+	// that panics - a handle that was not closed - cannot be recovered).
+	drainFinalizers()
+	if report {
+		w.send('D', "")
+	}
+}
+
+//go:noinline
+func (w *workerState) layerCalls(blob []byte, idx []int, report bool) {
 	sum := sha256.Sum256(blob)
 	desc := claircore.LayerDescription{
 		Digest:    "sha256:" + hex.EncodeToString(sum[:]),
@@ -499,13 +517,6 @@ func (w *workerState) layer(blob []byte, idx []int, report bool) {
 			defer func() { recover() }()
 			l.Close()
 		}()
-	}
-	// What the calls left to the garbage collector is finalized now, while the
-	// parent still charges a death of the worker to this layer (a finalizer
-	// that panics - a handle that was not closed - cannot be recovered).
-	drainFinalizers()
-	if report {
-		w.send('D', "")
 	}
 }
 
@@ -629,7 +640,11 @@ func (w *workerState) realScan(blob []byte, desc *claircore.LayerDescription) ca
 		if err != nil {
 			return 0, err
 		}
-		err = w.real.Scan(ctx, d, []*claircore.Layer{&l})
+		ls := w.real
+		if w.realCalls++; w.realCalls%3 == 0 && w.realDefault != nil {
+			ls = w.realDefault
+		}
+		err = ls.Scan(ctx, d, []*claircore.Layer{&l})
 		w.store.mu.Lock()
 		n := w.store.set
 		w.store.mu.Unlock()
@@ -699,10 +714,13 @@ func workerMain() {
 	var skipped []string
 	w.scanners, skipped = buildScanners(ctx, os.Getenv(envWorkerDir))
 	w.store = &nullStore{}
-	if ls, err := buildLayerScanner(ctx, os.Getenv(envWorkerDir), w.store); err != nil {
+	if ls, err := buildLayerScanner(ctx, os.Getenv(envWorkerDir), w.store, 64); err != nil {
 		skipped = append(skipped, "indexer.NewLayerScanner: "+oneLine(err.Error(), 200))
 	} else {
 		w.real = ls
+	}
+	if ls, err := buildLayerScanner(ctx, os.Getenv(envWorkerDir), w.store, 0); err == nil {
+		w.realDefault = ls
 	}
 	all := make([]int, len(w.scanners)+len(pseudoCalls))
 	ids := make([]string, len(w.scanners)+len(pseudoCalls))
